@@ -736,6 +736,32 @@ func (e *execState) runBlock(bi int, blk *Block, prev *Snap) (*blockObs, bool) {
 			msg += " [" + br.PanicAt + "]"
 		}
 		res.addV("C07", "block.fail", classifyHalt(msg), fmt.Sprintf("FinalizeBlock %s at block %d (t=%d): %s", kind, bi, blk.TimeNs, msg), bi, -1)
+		// A failed block is also a block in which nothing that was due happened: an auction that had
+		// to open or settle in the first block at or after its instant (C08), an instalment that had
+		// to be paid in the first block at or after its release time (C09). Read from the
+		// implementation's own records before the block, not from the model.
+		if prev != nil {
+			for i := range prev.Auctions {
+				a := &prev.Auctions[i]
+				switch a.Status {
+				case StStandby:
+					if a.StartNs <= blk.TimeNs {
+						res.addV("C08", "lifecycle.blocked", "open", fmt.Sprintf("auction %d had to open in block %d (start %d <= block time %d) but the block failed: %s", a.ID, bi, a.StartNs, blk.TimeNs, abbreviate(msg)), bi, -1)
+					}
+				case StStarted:
+					if len(a.EndTimes) > 0 && a.EndTimes[len(a.EndTimes)-1] <= blk.TimeNs {
+						res.addV("C08", "lifecycle.blocked", "settle", fmt.Sprintf("auction %d had to settle or extend in block %d (end %d <= block time %d) but the block failed: %s", a.ID, bi, a.EndTimes[len(a.EndTimes)-1], blk.TimeNs, abbreviate(msg)), bi, -1)
+					}
+				case StVesting:
+					for _, q := range a.Queue {
+						if !q.Released && q.ReleaseNs <= blk.TimeNs {
+							res.addV("C09", "release.blocked", "release", fmt.Sprintf("the instalment of auction %d due at %d had to be paid in block %d (time %d) but the block failed: %s", a.ID, q.ReleaseNs, bi, blk.TimeNs, abbreviate(msg)), bi, -1)
+							break
+						}
+					}
+				}
+			}
+		}
 		return bo, false
 	}
 	if hookInjectedBegin {
